@@ -21,12 +21,15 @@ VARIABLES l,        \* number of events consumed
           phase,    \* "act" | "sync" | "done"
           mism,     \* set of [line, what]      differences between logged scalars and the spec state
           viol,     \* set of [line, clause, shared, manual]   property violations seen on the trace
-          taint     \* BC objects / variables whose flags were reset by hand since their last apply
-tvars == <<l, phase, mism, viol, taint>>
+          taint,    \* BC objects / variables whose flags were reset by hand since their last apply
+          pre       \* what the spec expected of the event just consumed: [needs |-> entry check must fire]
+tvars == <<l, phase, mism, viol, taint, pre>>
 
 Ev == Trace[l + 1]
 Is(name) == phase = "act" /\ l < Len(Trace) /\ Ev.ev = name
-Consume == l' = l + 1 /\ phase' = "sync" /\ UNCHANGED <<mism, viol>>
+Consume == /\ l' = l + 1 /\ phase' = "sync" /\ UNCHANGED <<mism, viol>>
+           /\ pre' = [needs |-> IF Ev.ev \in {"SolvePDE", "SolveExplicit"} /\ alive[Ev.v] THEN NeedsApply(Ev.v)
+                                 ELSE FALSE]
 
 \* a variable that comes with a BC object the recorder has never seen (deep copy made by an
 \* operator, funceval, ...): adopt the object with the flags it was logged with
@@ -89,7 +92,7 @@ TSkip ==
   /\ phase = "act" /\ l < Len(Trace) /\ ~Guard(Ev)
   /\ l' = l + 1 /\ phase' = "act"
   /\ mism' = mism \cup {[line |-> l + 1, what |-> "not_enabled:" \o Ev.ev]}
-  /\ UNCHANGED <<vars, viol, taint>>
+  /\ UNCHANGED <<vars, viol, taint, pre>>
 
 \* ---- second step: compare logged scalars, adopt them, judge the use ----------------------
 Done == Trace[l]            \* the event just consumed
@@ -114,6 +117,9 @@ Sync ==
                  \cup (IF dside THEN {[line |-> l, what |-> "side_flag:EditBC"]} ELSE {})
                  \cup (IF e.ev = "SolvePDE" /\ (e.error # "none") # (~use.exists)
                        THEN {[line |-> l, what |-> "error:SolvePDE"]} ELSE {})
+                 \* the entry check of a solver fired exactly when the spec's flags say it must
+                 \cup (IF e.ev \in {"SolvePDE", "SolveExplicit"} /\ e.entry # pre.needs
+                       THEN {[line |-> l, what |-> "entry_check:" \o e.ev]} ELSE {})
          stale == e.ev = "SolvePDE" /\ use.var # None /\ (~use.exists \/ use.cache # use.bc)
      IN  /\ mism' = mism \cup newm
          /\ viol' = IF stale
@@ -138,16 +144,16 @@ Sync ==
                             IF e.ev = "NewVar" /\ v = e.v /\ alive[v] /\ e.ghost_given
                             THEN <<intC[v], None>> ELSE ghostFrom[v]]
   /\ phase' = "act"
-  /\ UNCHANGED <<l, taint, bcAlive, bcC, everShared, alive, bcOf, intC, precalc, use, last>>
+  /\ UNCHANGED <<l, taint, pre, bcAlive, bcC, everShared, alive, bcOf, intC, precalc, use, last>>
 
 Finish ==
   /\ phase = "act" /\ l = Len(Trace)
   /\ PrintT("@@ " \o ToJson([id |-> JsonDeserialize(IOEnv.TRACE_FILE).id, events |-> Len(Trace),
                              mism |-> mism, viol |-> viol]))
   /\ phase' = "done"
-  /\ UNCHANGED <<vars, l, mism, viol, taint>>
+  /\ UNCHANGED <<vars, l, mism, viol, taint, pre>>
 
-TInit == Init /\ l = 0 /\ phase = "act" /\ mism = {} /\ viol = {} /\ taint = {}
+TInit == Init /\ l = 0 /\ phase = "act" /\ mism = {} /\ viol = {} /\ taint = {} /\ pre = [needs |-> FALSE]
 TNext == TNewBC \/ TNewVar \/ TEditBC \/ TAssign \/ TSetFlag \/ TApply \/ TUpdate \/ TCopy \/ TSolve
          \/ TExplicit \/ TMatrix \/ TSkip \/ Sync \/ Finish
 TSpec == TInit /\ [][TNext]_<<vars, tvars>>
